@@ -14,10 +14,22 @@ RULE = ("Generator: rasters <= 10x10 (int/float dtypes, NaN cells, C/F/view layo
         "in cells, coordinate labels, dims, attrs. Non-trivial: the window is strictly smaller than the raster on >= 1 side; "
         "distinct by SHA-1 of the case (random) or enumeration index (masks).")
 ASSUMPTIONS = ["at least one kept cell (trim) / one cell of a requested zone (crop): an empty selection has no bounding box",
-               "2-D rasters with two dimension coordinates"]
+               "2-D rasters; each dimension has a regular coordinate, no coordinate variable at all, or rounded cell centres with repeated labels"]
 BUDGET_S = {"quick": 150, "thorough": 900}
 
 EXCL = {"default": None, "zero": [0], "nan0": ["nan", 0.0], "m1_2.5": [-1.0, 2.5], "nan": ["nan"]}  # lists are homogeneous (Numba reflected-list precondition)
+
+
+@st.composite
+def _axis(draw, n):
+    """Dimension coordinates of a raster: regular (either direction), none at all, or rounded cell centres with repeated labels."""
+    k = draw(st.integers(0, 7))
+    if k == 0:
+        return "none"
+    ax = draw(S.axis_coords(n))
+    if k == 1:
+        ax = dict(ax, step=draw(st.sampled_from([0.3, 0.5, 0.4])), decimals=0)
+    return ax
 
 
 def _match(a, excl):
@@ -79,6 +91,11 @@ def body_trim(case, ctx):
             "borders_touched=%d" % sum([t == 0, l == 0, b == a.shape[0] - 1, rr == a.shape[1] - 1]))
     if a.shape[0] == 1 or a.shape[1] == 1:
         r.label("single_row_or_col")
+    for d, ax in (("y", case.get("y")), ("x", case.get("x"))):
+        if ax == "none":
+            r.label("dim_without_coordinate")
+        elif isinstance(ax, dict) and ax.get("decimals") is not None:
+            r.label("repeated_coordinate_labels")
     if excl_spec is None:
         out = trim(ras)
     else:
@@ -160,7 +177,7 @@ def trim_cases(draw, max_side):
         flat[k] = draw(st.sampled_from(keepers))
     data = [flat[i * w:(i + 1) * w] for i in range(h)]
     case = {"sub": "trim", "raster": {"dtype": dtype, "data": data}, "excl": excl_name,
-            "y": draw(S.axis_coords(h)), "x": draw(S.axis_coords(w)),
+            "y": draw(_axis(h)), "x": draw(_axis(w)),
             "attrs": draw(st.sampled_from([{}, {"res": [1, 1], "unit": "m"}, {"nodata": 0, "k": [1, 2]}])),
             "layout": draw(st.sampled_from(["C", "C", "F", "view", "ro"])),
             "as_tuple": draw(st.booleans())}
@@ -191,7 +208,7 @@ def crop_cases(draw, max_side):
     return {"sub": "crop",
             "zones": {"dtype": zdtype, "data": [zflat[i * w:(i + 1) * w] for i in range(h)]},
             "values": {"dtype": vdtype, "data": [vflat[i * w:(i + 1) * w] for i in range(h)]},
-            "ids": ids, "y": draw(S.axis_coords(h)), "x": draw(S.axis_coords(w)),
+            "ids": ids, "y": draw(_axis(h)), "x": draw(_axis(w)),
             "attrs": draw(st.sampled_from([{}, {"res": [2, 3]}])),
             "layout": draw(st.sampled_from(["C", "F", "view"])),
             "as_tuple": draw(st.booleans())}
